@@ -9,6 +9,7 @@
 -/
 import EasyMl.Lemmas.Gaussian
 import EasyMl.Props.C08
+import EasyMl.Lemmas.Stats
 import Mathlib.Analysis.SpecialFunctions.Exp
 import Mathlib.Tactic.NormNum
 
@@ -264,6 +265,24 @@ example : ("a" : String) ≠ "b" := by decide
 example : ([1, 2] : List ℚ).length = (⟨[4, 2, 2, 5], 2, 2⟩ : Matrix ℚ).rows := rfl
 
 end mv
+
+/-! ### fitting -/
+
+/-- **`Gaussian::approximating` fits the sample mean and the population variance**: for non-empty
+    data over any field the result is `(Σxᵢ/N, Σ(xᵢ−μ)²/N)` (`Spec.Stats.popMean`, `popVariance`; the
+    C14 theorems about `linear_algebra::mean` / `variance`); empty data is rejected by the
+    assertion of `mean`. -/
+theorem approximating_eq {K : Type} [Field K] (data : List K) :
+    (data ≠ [] → approximating data
+        = .ok (Spec.Stats.popMean data, Spec.Stats.popVariance data)) ∧
+    (approximating ([] : List K) = .panic .explicit) := by
+  constructor
+  · intro h
+    unfold approximating
+    rw [Stats.mean_eq_popMean data h, Stats.variance_eq_popVariance data h]
+  · rfl
+
+example : ([1, 2, 4] : List ℚ) ≠ [] := by decide
 
 /-! ### constructor validation -/
 
